@@ -219,7 +219,8 @@ End Step.
 Definition lstep (v0 : bool) (s : st) (l : oracle * op) : outcome st := step (fst l) v0 s (snd l).
 
 (** Reset every object (stray copies are re-initialised instead, which is
-    the only thing a program may do with them): the end-of-case clean-up of
+    the only thing a program may do with them; a guarded pointer object owns
+    nothing and is simply re-initialised): the end-of-case clean-up of
     the harness, after which nothing may be live. *)
 Definition cleanup_op (s : st) (i : nat) : option op :=
   match nth_error (objs s) i with
@@ -228,10 +229,12 @@ Definition cleanup_op (s : st) (i : nat) : option op :=
     Some (if wfb s i then
             match okind o with
             | KU => OM (UReset i) | KS => OM (SReset i) | KW => OM (WReset i) | KA => OA (VReset i)
+            | KG => OM (GInit i)
             end
           else
             match okind o with
             | KU => OM (UInit i) | KS => OM (SInit i) | KW => OM (WInit i) | KA => OA (VInit i)
+            | KG => OM (GInit i)
             end)
   end.
 
